@@ -202,6 +202,23 @@ pub fn run(args: &[String]) {
                     writeln!(out, "DETAILS {c} {s} {line}").unwrap();
                 }
             }
+            // FSM state code points of an MRT BGP4MP state change: read from the record, and once more after the record was widened
+            // to its four-octet-AS form (From<StateChange> for StateChangeAs4 copies them)
+            let codes: [u16; 12] = [0, 1, 2, 3, 4, 5, 6, 7, 8, 255, 256, 65535];
+            for o in codes {
+                for n in codes {
+                    let mut b = vec![0u8, 1, 0, 2, 0, 0, 0, 1, 10, 0, 0, 1, 10, 0, 0, 2];
+                    b.extend_from_slice(&o.to_be_bytes());
+                    b.extend_from_slice(&n.to_be_bytes());
+                    let r = crate::util::guard(|| {
+                        let sc = routecore::mrt::StateChange::parse(&mut octseq::Parser::from_ref(&b)).unwrap();
+                        let (o1, n1) = (u16::from(sc.old_state()), u16::from(sc.new_state()));
+                        let w: routecore::mrt::StateChangeAs4 = sc.into();
+                        format!("{o1} {n1} {} {}", u16::from(w.old_state()), u16::from(w.new_state()))
+                    }).unwrap_or("PANIC".into());
+                    writeln!(out, "STCH {o} {n} {r}").unwrap();
+                }
+            }
         }
         Some("oracle") => {
             let mut sink = std::io::sink();
